@@ -19,9 +19,10 @@ KERNELS = {
 
 # ------------------------------------------------------------------------------------------------ oracle wrappers
 def o_basis(rng, n=6, which=("perm", "spg", "sum", "ortho", "compact"), max_N=(8, 5, 4), orders=(2, 3, 4), min_nlp=1,
-            hooks=None, explicit_ops=0.0):
+            hooks=None, explicit_ops=0.0, protos=None, round_decimals=None, with_cutoff=True):
     def gen():
-        for inp in O.gen_basis_inputs(rng, n, max_N=max_N, orders=orders, min_nlp=min_nlp):
+        for inp in O.gen_basis_inputs(rng, n, max_N=max_N, orders=orders, min_nlp=min_nlp, protos=protos,
+                                      round_decimals=round_decimals, with_cutoff=with_cutoff):
             if hooks:
                 inp["hooks"] = hooks
             if rng.random() < explicit_ops:
@@ -83,8 +84,15 @@ def o_fit(name):
     def f(rng, n=6, max_N=(6, 4, 3), combos=None, confine=False):
         def gen():
             for inp in O.gen_fit_inputs(rng, n, max_N=max_N, combos=combos):
-                if confine and rng.random() < 0.3:
-                    inp["confine"] = True
+                if confine and rng.random() < 0.35:
+                    # under-determined data (the library may fail loudly; if it answers, the answer must be a minimiser):
+                    # displacements along x only, or fewer equations than unknowns; also at small amplitudes, where
+                    # the higher-order columns of the design matrix are weak
+                    if rng.random() < 0.6:
+                        inp["confine"] = True
+                    else:
+                        inp["n_snap"] = rng.choice([1, 2, 3])
+                    inp["amp"] = rng.choice([0.05, 0.01, 0.003])
                 elif rng.random() < 0.3:
                     inp["freeze_atom"] = rng.randrange(64)
                     inp["n_snap"] = int(inp["n_snap"]) * 3          # still (usually) determined
@@ -137,7 +145,9 @@ def o_paths(rng, n=3, max_N=(6, 4, 3)):
 def o_sg(rng, n=8, max_N=12):
     def gen():
         for k in range(n):
-            yield {"crystal": crystal(rng, max_N=max_N), "subgroup": k % 4 == 3}
+            yield {"crystal": crystal(rng, max_N=max_N, min_nlp=rng.choice([1, 2])), "subgroup": k % 4 == 3,
+                   "op_order": rng.choice(["spglib", "shuffled", "identity_first_shuffled", "by_rotation"]),
+                   "seed": rng.randrange(10 ** 6)}
     return O.run_oracle("sg_perms", gen())
 
 
@@ -342,6 +352,15 @@ PROPS = {
                               "orders": (2, 2, 3, 2, 3, 4)},
                     "thorough": {"n": 48, "which": ("spg",), "explicit_ops": 1.0, "min_nlp": 2, "max_N": (10, 6, 4)},
                     "search": {"n": 36, "which": ("spg",), "explicit_ops": 1.0, "min_nlp": 2, "max_N": (8, 6, 4)}},
+                   # hexagonal structures whose coordinates are written with seven decimals (1/3 -> 0.3333333): invariance
+                   # under the operations spglib finds at its DEFAULT tolerance
+                   {"name": "basis_spg_seven_decimals", "fn": o_basis,
+                    "quick": {"n": 6, "which": ("spg",), "orders": (2, 2, 3), "max_N": (12, 6, 4), "min_nlp": 2,
+                              "protos": ("hcp", "wurtzite", "hex1"), "round_decimals": 7, "with_cutoff": False},
+                    "thorough": {"n": 24, "which": ("spg",), "orders": (2, 2, 3), "max_N": (12, 6, 4), "min_nlp": 2,
+                                 "protos": ("hcp", "wurtzite", "hex1"), "round_decimals": 7, "with_cutoff": False},
+                    "search": {"n": 18, "which": ("spg",), "orders": (2, 2, 3), "max_N": (12, 6, 4), "min_nlp": 2,
+                               "protos": ("hcp", "wurtzite", "hex1"), "round_decimals": 7, "with_cutoff": False}},
                    {"name": "basis_spg", "fn": o_basis, "quick": {"n": 9, "which": ("spg",), "explicit_ops": 0.0, "min_nlp": 1},
                     "thorough": {"n": 48, "which": ("spg",), "max_N": (10, 6, 4), "explicit_ops": 0.5},
                     "search": {"n": 36, "which": ("spg",), "explicit_ops": 0.5}}],
@@ -353,6 +372,14 @@ PROPS = {
                   "thorough": {"n_cases": 240, "sizes": ((8, 8), (6, 6), (4, 4))}}],
         "oracle": [{"name": "first_order_basis", "fn": o_basis_o1, "quick": {"n": 8}, "thorough": {"n": 40}, "search": {"n": 24}},
                    {"name": "process_and_object_history", "fn": o_process_history, "quick": {"n": 2}, "thorough": {"n": 16}, "search": {"n": 24}},
+                   # several independent atoms of one species that no operation relates
+                   {"name": "basis_sum_repeated_species", "fn": o_basis,
+                    "quick": {"n": 6, "which": ("sum",), "orders": (2, 3, 2), "max_N": (6, 3, 3),
+                              "protos": ("p1_aaa", "p1_aab", "two_orbits")},
+                    "thorough": {"n": 18, "which": ("sum",), "orders": (2, 3, 2, 4), "max_N": (9, 6, 3),
+                                 "protos": ("p1_aaa", "p1_aab", "two_orbits")},
+                    "search": {"n": 12, "which": ("sum",), "orders": (2, 3, 2, 4), "max_N": (6, 3, 3),
+                               "protos": ("p1_aaa", "p1_aab", "two_orbits")}},
                    {"name": "basis_sum", "fn": o_basis, "quick": {"n": 12, "which": ("sum",)},
                     "thorough": {"n": 48, "which": ("sum",), "max_N": (10, 6, 4)}, "search": {"n": 30, "which": ("sum",)}},
                    {"name": "basis_sum_large_path", "fn": o_basis,
